@@ -18,10 +18,32 @@ from .facts import callee_path
 UNK = object()
 
 
+_PROG = [None]
+
+
+def _term_value(t):
+    """value of a constant provenance term (promoted constants, const items)"""
+    while isinstance(t, tuple) and t and t[0] in ("ref", "deref"):
+        t = t[1]
+    if t[0] == "const":
+        return t[1]
+    if t[0] == "aggr" and not t[3]:
+        return ("enum", t[1], t[2])
+    return UNK
+
+
 def _operand(env, op):
     k = op["k"]
     if k == "const":
         v = op.get("val", UNK)
+        if v is UNK and _PROG[0] is not None and "def" in op:
+            from .prov import promoted_term, const_term
+            try:
+                if "promoted" in op:
+                    return _term_value(promoted_term(_PROG[0], op["def"], op["promoted"]))
+                return _term_value(const_term(_PROG[0], op["def"]))
+            except Exception:
+                return UNK
         return v
     if k in ("copy", "move"):
         p = op["place"]
@@ -34,7 +56,7 @@ def _operand(env, op):
                 if i < len(base):
                     return base[i]
         if len(p["p"]) == 1 and p["p"][0][0] == "deref":
-            return env.get(("deref", p["l"]), env.get(p["l"], UNK) if isinstance(env.get(p["l"], UNK), (bool, int)) else UNK)
+            return env.get(p["l"], UNK)
     return UNK
 
 
@@ -90,9 +112,14 @@ def _step_stmt(env, s):
     elif k == "cast" and rv["kind"] == "IntToInt":
         v = _operand(env, rv["op"])
     elif k == "ref":
+        # references are transparent for scalar / fieldless-enum values
         p = rv["place"]
         if not p["p"] and p["l"] in env:
-            env[("deref", l)] = env[p["l"]]
+            v = env[p["l"]]
+        elif len(p["p"]) == 1 and p["p"][0][0] == "deref" and p["l"] in env:
+            v = env[p["l"]]
+    elif k == "aggr" and rv.get("kind") == "adt" and not rv["ops"]:
+        v = ("enum", rv["adt"], rv["variant"])
     if v is UNK:
         env.pop(l, None)
     else:
@@ -113,6 +140,7 @@ def return_values(fn, atoms=None, params=None, call_values=None):
 def walk(fn, start, atoms=None, sinks=(), params=None, stop=(), max_states=20000, call_values=None, on_return=None):
     """returns (set of reached sinks, undecided: True if some switch operand was unknown)"""
     atoms = atoms or {}
+    _PROG[0] = fn.prog
     sinks = set(sinks)
     stop = set(stop)
     env0 = dict(params or {})
